@@ -61,12 +61,15 @@ class PrepareSimPass( BasePass ):
 
   def create_sim_eval_comb( self, top ):
     # Pure RTL design, add eval_combinational
-    if len( top.get_all_object_filter( lambda x: isinstance( x, MethodPort ) ) ) == 0 and \
+    method_ports = top.get_all_object_filter( lambda x: isinstance( x, MethodPort ) )
+    if len( method_ports ) == 0 and \
        len( top.get_all_update_once() ) == 0:
       sim_eval_combinational = SimpleTickPass.gen_tick_function( [top._sim.check_top_level_inports] + top._sched.update_schedule )
     else:
       def sim_eval_combinational():
-        raise NotImplementedError(f"top is not a pure RTL design. {'top'+repr(list(method_ports)[0])[1:]} is a method port.")
+        if method_ports:
+          raise NotImplementedError(f"top is not a pure RTL design. {'top'+repr(list(method_ports)[0])[1:]} is a method port.")
+        raise NotImplementedError("top is not a pure RTL design: it has update_once blocks.")
 
     top.sim_eval_combinational = sim_eval_combinational
 
